@@ -28,7 +28,7 @@ RECURSIVE OInls(_)
 \* _append_element_text on the children of a paragraph
 OInl(i) ==
     CASE i[1] = "r"    -> << <<"t", i[2]>> >>
-      [] i[1] \in {"tab", "br"} -> WS
+      [] i[1] \in {"tab", "br", "sp"} -> WS                       \* "sp": the tail text of the element before it
       [] i[1] \in {"a", "ins"} -> OInls(i[2])                    \* generic recursion into children
       [] i[1] = "del"  -> <<>>                                     \* text:change is an empty element
       [] i[1] \in {"fn", "cm"} -> <<>>                             \* text:note / office:annotation are skip tags
